@@ -249,7 +249,7 @@ func verifC04ProvesQuorum(o *verifC04Oracle, b unauthenticatedBundle) bool {
 	return total.Ge(vr.ZU(o.threshold))
 }
 
-//verif:harness prop=C04 reach=done,accepted,rejected unwind=10 budget=280 thorough.budget=3000
+//verif:harness prop=C04 reach=done,accepted,rejected unwind=10 budget=280 thorough.budget=7000
 //verif:stub github.com/algorand/go-algorand/agreement.membership = verifStubMembership
 //verif:stub (github.com/algorand/go-algorand/crypto.OneTimeSignatureVerifier).Verify = verifStubOTSVerify
 //verif:stub (github.com/algorand/go-algorand/data/committee.UnauthenticatedCredential).Verify = verifStubCredVerify
